@@ -34,7 +34,9 @@ impl<const N: usize> Rib for RibbonController<N> {
     }
 }
 
-pub const RATES: [u32; 16] = [100, 250, 500, 999, 1000, 1999, 2000, 4000, 8000, 10_000, 22_050, 44_100, 48_000, 96_000, 176_400, 192_000];
+pub const RATES: [u32; 24] = [
+    100, 250, 500, 999, 1000, 1999, 2000, 4000, 8000, 10_000, 22_050, 44_100, 48_000, 96_000, 176_400, 192_000, 150, 750, 1500, 3000, 6000, 16_000, 32_000, 88_200,
+];
 
 macro_rules! mk {
     ($rate:expr, $sp:expr, $dr:expr, $pu:expr) => {{
@@ -62,7 +64,15 @@ pub fn make(idx: usize, sp: f32, dr: f32, pu: f32) -> (Box<dyn Rib>, usize) {
         12 => mk!(48_000, sp, dr, pu),
         13 => mk!(96_000, sp, dr, pu),
         14 => mk!(176_400, sp, dr, pu),
-        _ => mk!(192_000, sp, dr, pu),
+        15 => mk!(192_000, sp, dr, pu),
+        16 => mk!(150, sp, dr, pu),
+        17 => mk!(750, sp, dr, pu),
+        18 => mk!(1500, sp, dr, pu),
+        19 => mk!(3000, sp, dr, pu),
+        20 => mk!(6000, sp, dr, pu),
+        21 => mk!(16_000, sp, dr, pu),
+        22 => mk!(32_000, sp, dr, pu),
+        _ => mk!(88_200, sp, dr, pu),
     }
 }
 
@@ -78,6 +88,8 @@ pub enum RunLen {
     Edge(i8),
     /// capture length + mult * capacity (the ring buffer wraps within the press)
     Long(f32),
+    /// a very long unbroken press: lengths around the points where 16-bit sample counters would wrap
+    Huge(u8),
 }
 
 #[derive(Debug, Clone, Serialize, Deserialize, PartialEq)]
@@ -97,6 +109,10 @@ pub struct Seg {
     pub poll_every: u16,
     /// alternative in-range samples used by the metamorphic re-runs (stream parameter)
     pub alt_key: u32,
+    /// 0 = ramp level -> level2 with noise; 1 = A-B-A steps (level, level2 for a stretch whose length comes from
+    /// noise_key, level again) with bit-identical samples inside each stretch
+    #[serde(default)]
+    pub pattern: u8,
 }
 
 #[derive(Debug, Clone, Serialize, Deserialize, PartialEq)]
@@ -192,6 +208,7 @@ fn seg_len(len: &RunLen, lstar: usize, cap: usize) -> usize {
         }
         RunLen::Edge(d) => (lstar as i64 + (*d as i64).clamp(-1, 1)).max(1) as usize,
         RunLen::Long(m) => lstar + (m.clamp(0.0, 3.0) as f64 * cap as f64) as usize,
+        RunLen::Huge(k) => [65_535usize, 65_536, 65_537, 66_000, 70_000, 131_073][(*k % 6) as usize].max(lstar + 1),
     }
 }
 
@@ -203,6 +220,12 @@ fn seg_sample(cfg: &Config, s: &Seg, i: usize, n: usize, key: u32, use_alt: bool
     }
     let a = s.level.clamp(0.0, 1.0) as f64;
     let b = s.level2.clamp(0.0, 1.0) as f64;
+    if s.pattern == 1 {
+        let start = n / 3;
+        let blen = 1 + (s.noise_key as usize) % (n / 2).max(1);
+        let lvl = if i >= start && i < start + blen { b } else { a };
+        return ((lvl * top) as f32).clamp(0.0, top as f32);
+    }
     let t = if n > 1 { i as f64 / (n - 1) as f64 } else { 0.0 };
     let base = a + (b - a) * t;
     let v = (base + s.noise.clamp(0.0, 1.0) as f64 * noise(s.noise_key, i as u64)) * top;
